@@ -220,6 +220,27 @@ pub fn run(ctx: &Ctx, rep: &mut Report) {
         };
         check_tree(&e, &format!("shared:{}", i), &mut r, rep, 3);
     });
+    // stream related: the leaves of one tree come from a pool of one to three base leaves and leaves
+    // *related* to them (equal-valued copies, neighbouring constants, the other comparison form, the other
+    // case rule, the same destination with another terminator): relations between two constants of one
+    // expression are what folding, merging and caching optimisations key on
+    let n_related = ctx.pick(1500, 300_000);
+    par_cases(ctx, "related", n_related, rep, |i, rep| {
+        let mut r = Rng::for_case(ctx.seed, "related", i);
+        let nbase = 1 + r.usize(3);
+        let base: Vec<Expression> = (0..nbase).map(|_| gen_leaf(&mut r, 30)).collect();
+        let leaves = 2 + r.usize(6);
+        let e = gen_tree(&mut r, leaves, &mut |r| {
+            let b = &base[r.usize(base.len())];
+            if r.chance(1, 3) {
+                b.clone()
+            } else {
+                related_leaf(b, r)
+            }
+        });
+        rep.count("related_constant_trees");
+        check_tree(&e, &format!("related:{}", i), &mut r, rep, 4);
+    });
     // stream heavy: many matchers / printers so that identifiers and frame tags go past one digit
     let n_heavy = ctx.pick(600, 40_000);
     par_cases(ctx, "heavy", n_heavy, rep, |i, rep| {
